@@ -43,9 +43,9 @@ TEXTS = {
          'Trusted: zlib/zstd assumed contracts, CBMC. The functional inverse through the hash-table matcher is out of reach for contracts without a decoder spec function in loop invariants (stated n/a part).'),
  'C10': ('Emitters against spec parsers written from the format documents: snappy_emit_literal / snappy_emit_copy headers parse to the intended (kind, length, offset) for all lengths/offsets, copy-1 only for 4..11 bytes and 11-bit offsets; every copy emitted by carquet_snappy_compress has an offset and length the format can hold (callee preconditions checked in the whole-function contract slice); LZ4 token / extended length / offset emission and end-of-block rules (structural assertions inside carquet_lz4_compress, thorough tier); LZ4 decoder rejects the invalid forms of the block format (bounded).',
          'Trusted: specs/snappy_spec.h, specs/lz4_spec.h (reading of the format documents). "Accepts every valid stream" is a statement about the decoder as a function on streams: not claimed.'),
- 'C11': ('Per-encoding inverse facts, all inputs: 8-value bit pack/unpack inverse for every width 0..32 and specialised unpackers; bitpack_32/bitunpack_32 group loops (byte counts, partial group); varint/zigzag 32/64 inverse with consumed == produced; bit writer/reader; PLAIN encoders append exactly the input bytes; BYTE_STREAM_SPLIT transposition and its converse (per width); RLE encoder count/position preservation with ghost state (G_put, G_emitted, G_pad) through put / put_repeat / flush / encode_all / encode_levels incl. append-failure propagation; delta zigzag/ULEB128/bit-width helpers.',
+ 'C11': ('Per-encoding inverse facts, all inputs: 8-value bit pack/unpack inverse for every width 0..32 and specialised unpackers; bitpack_32/bitunpack_32 group loops (byte counts, partial group); varint/zigzag 32/64 inverse with consumed == produced; bit writer/reader; PLAIN encoders append exactly the input bytes; BYTE_STREAM_SPLIT transposition and its converse (per width); RLE encoder count/position preservation with ghost state (G_put, G_emitted, G_pad) through put / put_repeat / flush / encode_all / encode_levels incl. append-failure propagation; delta zigzag/ULEB128/bit-width helpers; streaming RLE decoder: has_next() is true exactly while values are pending or input is left; dictionary builder: a value gets an existing index iff length and bytes are equal (bounded).',
          'Trusted: assumed contracts of carquet_buffer_append and of the 8-group bit packers inside the RLE jobs (the latter proved in the bitpack jobs), CBMC. Whole-stream decode(encode(v)) == v for RLE/DELTA/dictionary and stream-vs-one-shot agreement are not claimed (no decoder spec function in invariants).'),
- 'C12': ('Byte layouts against spec functions written from Encodings.md: LSB-first bit layout of every 8-group for widths 1..32 (encoder bytes == spec encoder bytes; decoder == spec decoder on arbitrary bytes), ULEB128 / zigzag forms, RLE run header forms and value bytes, bit-packed run header, decoder acceptance of zero-length and multi-group runs in start_new_run, PLAIN little-endian layout, BYTE_STREAM_SPLIT layout, delta header pieces, DELTA_BYTE_ARRAY prefix lengths taken against the immediately preceding value; the one-shot DELTA_BINARY_PACKED decoders fail only when the header parser or a value step failed and INT32 values wrap to 32 bits.',
+ 'C12': ('Byte layouts against spec functions written from Encodings.md: LSB-first bit layout of every 8-group for widths 1..32 (encoder bytes == spec encoder bytes; decoder == spec decoder on arbitrary bytes), ULEB128 / zigzag forms, RLE run header forms and value bytes, bit-packed run header, no zero-padded literal group before an RLE run (ghost G_pad in put/flush), decoder acceptance of zero-length and multi-group runs in start_new_run, PLAIN little-endian layout, BYTE_STREAM_SPLIT layout, delta header pieces, DELTA_BYTE_ARRAY prefix lengths taken against the immediately preceding value; the one-shot DELTA_BINARY_PACKED decoders fail only when the header parser or a value step failed and INT32 values wrap to 32 bits.',
          'Trusted: specs/*.h. DELTA mini-blocks wider than 32 bits are byte-aligned instead of bit-packed (known finding if listed). Whole-stream independent decoder equivalence is not claimed.'),
  'C13': ('Thrift compact primitives are mutually inverse for all values (varint 1..10 bytes, zigzag i16/i32/i64, double, bool, uuid, binary (bounded payload), field header for every (last id, id, type), list/set/map headers), bytes equal an independent spec encoder, consumed == produced; thrift_skip consumes exactly one encoded value (fixed-width, list/set, map of fixed-width); writers of parquet_types.c emit only (type, id) rows of parquet.thrift for the open struct, ids ascending, required fields present, list headers matching; parser safety of the page-header and metadata sub-parsers.',
          'Trusted: specs/thrift_spec.h, specs/parquet_thrift_table.h, decoder/arena contracts assumed in the ptypes jobs (proved separately in the thrift jobs where live). Struct-level parse(write(x)) == x is not claimed.'),
